@@ -243,15 +243,19 @@ class TextMessagingService(BytesInterface, LoggingTrait):
         elif first_header.pdu_type == TMSPDUType.TMS_ACKNOWLEDGEMENT:
             # s/n is sequence number of text message being confirmed by this PDU
             sequence_number: Optional[int] = None
+            encoding: Optional[TMSEncoding] = None
             if first_header.has_more_headers:
-                (idx, sequence_number, _) = TextMessagingService.decode_sn_and_encoding(
-                    data, idx
-                )
+                (
+                    idx,
+                    sequence_number,
+                    encoding,
+                ) = TextMessagingService.decode_sn_and_encoding(data, idx)
 
             return TextMessagingService(
                 first_header=first_header,
                 address=address,
                 sequence_number=sequence_number,
+                encoding=encoding,
             )
         elif first_header.pdu_type == TMSPDUType.SIMPLE_TEXT_MESSAGE:
             sequence_number: Optional[int] = None
